@@ -146,4 +146,90 @@ theorem structUnion_scalar_first_other (rec : Ty → JsonV → Except SErr Val) 
   | str s => simp [structUnion, isObj, hsplit, firstOk_append_of_fail rec _ pre t v post hpre h]
   | arr xs => simp [structUnion, isObj, hsplit, firstOk_append_of_fail rec _ pre t v post hpre h]
 
+theorem firstOk_some (rec : Ty → JsonV → Except SErr Val) (j : JsonV) (ts : List Ty) (v : Val)
+    (h : firstOk rec j ts = some v) : ∃ t ∈ ts, rec t j = .ok v := by
+  induction ts with
+  | nil => simp [firstOk] at h
+  | cons u us ih =>
+    unfold firstOk at h
+    split at h
+    · rename_i w hw
+      cases h
+      exact ⟨u, by simp, hw⟩
+    · obtain ⟨t, ht, hr⟩ := ih h
+      exact ⟨t, by simp [ht], hr⟩
+
+/-- `_structure_union` never invents: a successful result is `None` for a `null` payload of a union listing `NoneType`,
+    the result of ONE member (or of the class the discriminator maps to) on the whole payload, or the payload itself
+    when `dict[str, Any]` is a member. -/
+theorem structUnion_ok_cases (rec : Ty → JsonV → Except SErr Val) (args : List Ty) (disc : Option Disc) (j : JsonV) (v : Val)
+    (h : structUnion rec args disc j = .ok v) :
+    (j = .null ∧ v = .none ∧ args.any isNoneTy = true)
+    ∨ (∃ t ∈ args, rec t j = .ok v)
+    ∨ (∃ d m s variant kvs, disc = some d ∧ j = .obj kvs ∧ d.mapping = some m ∧ aget kvs d.prop = some (.str s)
+          ∧ aget m s = some variant ∧ rec (.dc variant) j = .ok v)
+    ∨ (args.any isDictAny = true ∧ isObj j = true ∧ v = Val.ofJson j) := by
+  have mem_filter : ∀ (p : Ty → Bool) (t : Ty), t ∈ args.filter p → t ∈ args := fun p t ht => (List.mem_filter.mp ht).1
+  unfold structUnion at h
+  split at h
+  · split at h
+    · rename_i hn; cases h; exact .inl ⟨rfl, rfl, hn⟩
+    · cases h
+  · rename_i hnn
+    simp only at h
+    split at h
+    · -- via discriminator
+      rename_i r hr
+      split at hr
+      · rename_i d kvs
+        split at hr
+        · cases hr
+        · rename_i dv hdv
+          split at hr
+          · cases hr
+          · cases hr
+          · rename_i m hm1 hm2
+            split at hr
+            · cases hr; cases h
+            · cases hr; cases h
+            · rename_i s
+              split at hr
+              · rename_i variant hv
+                split at hr
+                · rename_i w hw
+                  cases hr; cases h
+                  exact .inr (.inr (.inl ⟨d, m, s, variant, kvs, rfl, rfl, by assumption, hdv, hv, hw⟩))
+                · cases hr; cases h
+              · cases hr; cases h
+            · cases hr; cases h
+      · cases hr
+    · split at h
+      · rename_i r hr
+        split at hr
+        · rename_i hobj
+          split at hr
+          · rename_i w hw
+            cases hr; cases h
+            obtain ⟨t, ht, hrt⟩ := firstOk_some rec j _ _ hw
+            exact .inr (.inl ⟨t, mem_filter _ t ht, hrt⟩)
+          · split at hr
+            · rename_i hfb
+              cases hr; cases h
+              exact .inr (.inr (.inr ⟨hfb, hobj, rfl⟩))
+            · split at hr
+              · cases hr; cases h
+              · cases hr
+        · cases hr
+      · split at h
+        · rename_i w hw
+          cases h
+          obtain ⟨t, ht, hrt⟩ := firstOk_some rec j _ _ hw
+          exact .inr (.inl ⟨t, mem_filter _ t ht, hrt⟩)
+        · split at h
+          · rename_i hfb
+            cases h
+            simp only [Bool.and_eq_true] at hfb
+            exact .inr (.inr (.inr ⟨hfb.1, hfb.2, rfl⟩))
+          · cases h
+
 end Pog
